@@ -637,7 +637,10 @@ func TestC15Mirror(t *testing.T) {
 		runC15History(r, rng.Fork("replay"), 0, replayOps)
 		return
 	}
-	n := pick(120, 2400)
+	n := pick(120, 1200)
+	if raceEnabled {
+		n /= 3 // the race-detector pass repeats the same generator on fewer histories
+	}
 	for i := 0; i < n; i++ {
 		hr := rng.Fork(fmt.Sprint(i))
 		if !mine(i) {
